@@ -4,3 +4,5 @@ import RB.Model.Stats
 import RB.Proofs.C15
 import RB.Model.Loader
 import RB.Proofs.C09
+import RB.Model.Rewrite
+import RB.Proofs.C14
